@@ -20,30 +20,46 @@ import itertools
 import pyglove as pg
 from pyvc.bounded import Recorder, rng
 
-PRE = '''import pyglove as pg
-@pg.members([('x', pg.typing.Any())])
-class A(pg.Object):
-  pass
-class A2(A):
-  pass
-@pg.members([('y', pg.typing.Any(default=None))])
-class B(A):
-  pass
-@pg.members([('p', pg.typing.Any()), ('q', pg.typing.Any())])
-class C(pg.Object):
-  pass
-@pg.members([('x', pg.typing.Any())])
-class N(pg.Object):
-  use_symbolic_comparison = False
-def _mk():
-  @pg.members([('x', pg.typing.Any())])
-  class L(pg.Object):
-    pass
-  return L
-L1, L2 = _mk(), _mk()
-def PD(**kw):
-  return pg.Dict.partial(kw, value_spec=pg.typing.Dict([('a', pg.typing.Any()), ('b', pg.typing.Any())]))
-'''
+_PARTS = {
+    '_f': "_f = lambda *n: pg.members([(k, pg.typing.Any()) for k in n])\n",
+    'A': "@_f('x')\nclass A(pg.Object): pass\n",
+    'A2': "class A2(A): pass\n",
+    'B': "@pg.members([('y', pg.typing.Any(default=None))])\nclass B(A): pass\n",
+    'C': "@_f('p', 'q')\nclass C(pg.Object): pass\n",
+    'N': "@_f('x')\nclass N(pg.Object): use_symbolic_comparison = False\n",
+    'L': ("def _mk():\n  @_f('x')\n  class L(pg.Object): pass\n  return L\n"
+          "L1, L2 = _mk(), _mk()\n"),
+    'PD': ("PD = lambda **kw: pg.Dict.partial(kw, value_spec=pg.typing.Dict("
+           "[('a', pg.typing.Any()), ('b', pg.typing.Any())]))\n"),
+}
+PRE = 'import pyglove as pg\n' + ''.join(_PARTS.values())
+
+
+def _pre(*exprs):
+  """The part of the preamble that the expressions need (witnesses are capped at 1200 chars)."""
+  import re
+  text = ' '.join(exprs)
+  names = set(re.findall(r'\b(A2|A|B|C|N|L1|L2|PD)\b', text))
+  need = []
+  if names & {'A', 'A2', 'B'}:
+    need.append('A')
+  for n in ('A2', 'B', 'C', 'N', 'PD'):
+    if n in names:
+      need.append(n)
+  if names & {'L1', 'L2'}:
+    need.append('L')
+  out = 'import pyglove as pg\n'
+  if any(n != 'PD' for n in need):
+    out += _PARTS['_f']
+  return out + ''.join(_PARTS[n] for n in need)
+
+
+def _fit(w, key=''):
+  if len(w) <= 1190:
+    return w
+  return ('# witness too long for the record; failing input: ' + repr(key)[:900] +
+          '\nraise AssertionError("see failing input")')
+
 
 POOL = [
     # markers and primitives.
@@ -230,7 +246,9 @@ def _opted_in(v):
 # ---------------------------------------------------------------------------
 
 def _rand_expr(r, depth):
-  leaves = ['None', 'pg.MISSING_VALUE', 'True', '0', '1', '2', '1.0', '0.5', "'a'", "'b'", "''"]
+  # no MISSING_VALUE below symbolic containers: pg.List / pg.Dict treat it as
+  # "delete this element" on construction, so it does not denote a value there.
+  leaves = ['None', 'True', '0', '1', '2', '1.0', '0.5', "'a'", "'b'", "''"]
   if depth <= 0 or r.random() < 0.3:
     return r.choice(leaves)
   k = r.randrange(6)
@@ -274,7 +292,7 @@ def _constructible(e):
 
 def _pool(tier, seed):
   exprs = list(POOL)
-  extra, depth = (40, 2) if tier == 'quick' else (150, 3)
+  extra, depth = (40, 2) if tier == 'quick' else (300, 3)
   r = rng(seed, 'c06-pool-' + tier)
   seen = set(exprs)
   tries = 0
@@ -296,10 +314,10 @@ def _build(exprs):
 
 
 def _w(ea, eb, body, ec=None):
-  s = PRE + f'a = {ea}\nb = {eb}\n'
+  s = _pre(ea, eb, ec or '') + f'a = {ea}\nb = {eb}\n'
   if ec is not None:
     s += f'c = {ec}\n'
-  return s + body
+  return _fit(s + body, (ea, eb, ec))
 
 
 def _call(fn, *args):
@@ -511,12 +529,13 @@ def drv_laws(tier, seed):
 def drv_sort(tier, seed):
   exprs = _pool(tier, seed)
   n = len(exprs)
-  n_sorts = 1500 if tier == 'quick' else 15000
+  n_sorts = 4000 if tier == 'quick' else 40000
   rec = Recorder(
       'C06', 'sorted(key=cmp_to_key(lt-comparator)) never raises and yields the order',
-      scope=f'{n_sorts} seeded samples (size 2..12, with repeats, and whole pool) of {n} pool values, 2 shuffles each')
+      scope=f'{n_sorts} seeded samples (size 2..10, with repeats) of {n} pool values x 2 constructions, 2 shuffles each, + fixed samples')
   _, xs, ys = _build(exprs)
   allv = [(e, v) for e, v in zip(exprs, xs)] + [(e, v) for e, v in zip(exprs, ys)]
+  short = [ev for ev in allv if len(ev[0]) <= 60]     # witnesses are capped at 1200 chars.
   r = rng(seed, 'c06-sort')
 
   byexpr = {e: v for e, v in zip(exprs, xs)}
@@ -524,15 +543,15 @@ def drv_sort(tier, seed):
       ["[{'b': 2, 'a': 1}]", "[{'a': 1, 'b': 2}, 1]", "[{'a': 1, 'c': 0}]"])]
   fixed += [list(p) for p in itertools.permutations(["{'a': 1, 'b': 2}", "{'b': 2, 'a': 1}", "{'a': 1, 'b': 3}"])]
   fixed += [list(p) for p in itertools.permutations(['1', 'True', '1.0', '[1]', 'pg.List([1])'], 4)]
+  fixed += [['None', '1', 'None'], ['pg.MISSING_VALUE', '0', 'pg.MISSING_VALUE'], ['L1(1)', 'L2(1)'], ['A(1)', 'L2(1)', 'L1(1)'],
+            ['None', 'pg.MISSING_VALUE', 'False', "''", '[]', '()', '{}', 'A(None)', 'A.partial()']]
 
   for t in range(n_sorts + len(fixed)):
     if t < len(fixed):
       sample = [(e, byexpr[e]) for e in fixed[t]]
-    elif t % 25 == 0:
-      sample = list(allv)
     else:
-      size = r.randrange(2, 13)
-      sample = [r.choice(allv) for _ in range(size)]
+      size = r.randrange(2, 11)
+      sample = [r.choice(short) for _ in range(size)]
     raised = []
 
     def cmp(a, b):
@@ -551,12 +570,16 @@ def drv_sort(tier, seed):
 
     s1 = list(sample)
     r.shuffle(s1)
-    s2 = list(sample)
-    r.shuffle(s2)
+    perm = list(range(len(s1)))
+    r.shuffle(perm)
+    if t < len(fixed):
+      perm = list(reversed(range(len(s1))))
+    s2 = [s1[i] for i in perm]
     o1 = sorted(s1, key=functools.cmp_to_key(cmp))
     o2 = sorted(s2, key=functools.cmp_to_key(cmp))
     src = '[' + ', '.join(e for e, _ in s1) + ']'
-    wit_sort = (PRE + 'import functools\n'
+    pre = _pre(src)
+    wit_sort = (pre + 'import functools\n'
                 f'vals = {src}\n'
                 'sorted(vals, key=functools.cmp_to_key(lambda a, b: -1 if pg.lt(a, b) else (1 if pg.lt(b, a) else 0)))')
     if raised:
@@ -567,19 +590,18 @@ def drv_sort(tier, seed):
           continue
         seen.add(lab)
         rec.case(f'sort.raises/{lab}', (a[0], b[0]), False, f'comparing {a[0]} with {b[0]}: {msg}',
-                 PRE + 'import functools\n'
-                 f'vals = [{a[0]}, {b[0]}]\n'
-                 'sorted(vals, key=functools.cmp_to_key(lambda a, b: -1 if pg.lt(a, b) else (1 if pg.lt(b, a) else 0)))')
+                 _fit(_pre(a[0], b[0]) + 'import functools\n'
+                      f'vals = [{a[0]}, {b[0]}]\n'
+                      'sorted(vals, key=functools.cmp_to_key(lambda a, b: -1 if pg.lt(a, b) else (1 if pg.lt(b, a) else 0)))', (a[0], b[0])))
       continue
     key = tuple(e for e, _ in s1)
-    lab = _multi_label([v for _, v in sample]) if len(sample) <= 12 else 'whole-pool'
+    lab = _multi_label([v for _, v in sample])
+    if 'permuted-dict-keys' not in lab and 'same-qualname-classes' not in lab:
+      lab = 'general'      # one id per defect; the pair/triple tables localise by kind.
     rec.case(f'sort.never-raises/{lab}', key, True)
     special = 'permuted-dict-keys' in lab or 'same-qualname-classes' in lab
     id_ordered = f'sort.order/{lab}' if special else f'sort.result-ordered/{lab}'
     id_unique = f'sort.order/{lab}' if special else f'sort.unique-up-to-eq/{lab}'
-    if t < len(fixed):
-      s2 = list(reversed(s1))
-      o2 = sorted(s2, key=functools.cmp_to_key(cmp))
     # the result is ordered: no later element is less than an earlier one.
     bad = None
     for p in range(len(o1)):
@@ -594,8 +616,8 @@ def drv_sort(tier, seed):
         break
     rec.case(id_ordered, key, bad is None,
              f'after sorting, {bad and bad[1]} (later) is lt {bad and bad[0]} (earlier)',
-             wit_sort.replace('sorted(vals', 'out = sorted(vals') +
-             '\nassert not any(pg.lt(out[q], out[p]) for p in range(len(out)) for q in range(p + 1, len(out)))')
+             _fit(wit_sort.replace('sorted(vals', 'out = sorted(vals') +
+                  '\nassert not any(pg.lt(out[q], out[p]) for p in range(len(out)) for q in range(p + 1, len(out)))', key))
     # the order is unique up to eq: two shuffles sort to element-wise equal lists.
     try:
       same = all(pg.eq(a[1], b[1]) for a, b in zip(o1, o2))
@@ -603,14 +625,34 @@ def drv_sort(tier, seed):
       same = True
     rec.case(id_unique, key, same,
              f'two shuffles sort differently: {[e for e, _ in o1]} vs {[e for e, _ in o2]}',
-             PRE + 'import functools\n'
-             f'v1 = [{", ".join(e for e, _ in s1)}]\nv2 = [{", ".join(e for e, _ in s2)}]\n'
-             'k = functools.cmp_to_key(lambda a, b: -1 if pg.lt(a, b) else (1 if pg.lt(b, a) else 0))\n'
-             'assert all(pg.eq(a, b) for a, b in zip(sorted(v1, key=k), sorted(v2, key=k)))')
+             _fit(pre + 'import functools\n'
+                  f'v1 = {src}\nv2 = [v1[i] for i in {perm!r}]\n'
+                  'k = functools.cmp_to_key(lambda a, b: -1 if pg.lt(a, b) else (1 if pg.lt(b, a) else 0))\n'
+                  'assert all(pg.eq(a, b) for a, b in zip(sorted(v1, key=k), sorted(v2, key=k)))', key))
   return rec.result()
 
 
-DRIVERS = [drv_laws, drv_sort]
+
+def _safe(drv):
+  """Last resort: an exception that escapes a driver is reported as a failed case
+  (with the traceback), not as a checker error."""
+  import functools as _ft
+  import traceback as _tb
+
+  @_ft.wraps(drv)
+  def run(tier, seed):
+    try:
+      return drv(tier, seed)
+    except Exception as e:  # pylint: disable=broad-except
+      tb = _tb.format_exc()
+      return dict(title=drv.__name__, scope='aborted by an unexpected exception', cases=1, distinct_nontrivial=1,
+                  failures=[dict(case_id=f'unexpected-exception/{drv.__name__}', message=tb[-600:], count=1, input='',
+                                 witness=f'raise AssertionError({(type(e).__name__ + ": " + str(e))[:300]!r})')],
+                  samples=[])
+  return run
+
+
+DRIVERS = [_safe(d) for d in (drv_laws, drv_sort)]
 
 
 def replay(rec):
